@@ -208,9 +208,9 @@ theorem finite_out_partial {K : Type} [ExactField K] {m : Model (Ext K)} {b : Bo
   have hp := closed_isFinite K
   simp only [FiniteLits, Bool.and_eq_true] at hfin
   obtain ⟨obj, s, _, hok, hobj, rfl⟩ :=
-    linearizeWith_run (N := fun _ => True) trivial hp (simpOK_of_closed hp) hfin.1
-      (stOK_init_of_finiteLits b d (by simp only [FiniteLits, Bool.and_eq_true]; exact hfin)) h
-  exact finite_of_ok hp hok hobj
+    linearizeWith_run (N := fun _ => True) trivial hp (simpOK_of_closed hp) (bTrack_off _) hfin.1
+      ⟨stOK_init_of_finiteLits b d (by simp only [FiniteLits, Bool.and_eq_true]; exact hfin), bOK_off _ _⟩ h
+  exact finite_of_ok hp hok.1 hobj
 
 example : ∃ lm, linearizeWith exA exAb exA.domain = .ok lm ∧ FiniteLits exA = true ∧
     (WF.report exA lm).finite = true :=
